@@ -120,6 +120,7 @@ var sinkAudit = map[string]string{
 	"eval/vals.indexString slice of extract(call:convertStringIndex) missing=ge0,lelen:param:s|ltlen:param:s":              "convertStringIndex returns bounds validated by ConvertListIndex against n = len(s): 0 <= i <= j <= len(s)",
 	"eval/vals.convertStringIndex slice of *extract(call:ConvertListIndex).Lower missing=ge0,lelen:param:s|ltlen:param:s": "ConvertListIndex(rawIndex, len(s)) returned without error, so adjustAndCheckIndex bounded Lower by [0, len(s)]",
 	"eval/vals.convertStringIndex slice of *extract(call:ConvertListIndex).Upper missing=ge0,lelen:param:s|ltlen:param:s": "ConvertListIndex(rawIndex, len(s)) returned without error, so adjustAndCheckIndex bounded Upper by [Lower, len(s)]",
+	"eval/vals.hasKeyViaIterateKeys$ ifacecmp of *freevar:*any missing=never": "the keys handed out by every IterateKeys implementation (Ns, ui.Text, *ui.Segment, complexItem) are strings or ints; == panics only when both operands hold the same uncomparable type",
 	"eval.div lib:(*math/big.Rat).Quo of *extract(assert(call:UnifyNums))[:][] missing=ne0": "every divisor rawNums[1:] was compared with exact 0 in the loop at the top of div; UnifyNums preserves zero-ness",
 	"eval.growAccess index of param:int missing=ltlen:*param:s":           "grow idiom: when i >= len(*s) the slice was just replaced by make([]T, i+1), so i < len(*s) on both branches",
 	"eval.randIntBigInt$ lib:(*math/big.Int).Rand of *freevar:**big.Int missing=gt0": "randIntBigInt returns early unless high > low; Rand is called with high when low is 0 and with high-low otherwise, both positive",
@@ -181,6 +182,19 @@ func (e *panicEngine) sinks() []sink {
 				}
 				if (v.Op == token.SHL || v.Op == token.SHR) && isIntType(v.Y.Type()) && !isUnsigned(v.Y.Type()) && tainted(v.Y) {
 					out = append(out, sink{ins, v.Y, "shift", []string{"ge0"}, "signed shift count must be non-negative"})
+				}
+				// a == b on two interface values panics ("comparing uncomparable
+				// type") when both hold the same uncomparable dynamic type - a
+				// slice such as ui.Text. Comparing with a constant, or with a
+				// value of a concrete type, is safe.
+				if (v.Op == token.EQL || v.Op == token.NEQ) && isEmptyIface(v.X.Type()) && isEmptyIface(v.Y.Type()) && tainted(v.X) && tainted(v.Y) {
+					if _, xc := v.X.(*ssa.Const); !xc {
+						if _, yc := v.Y.(*ssa.Const); !yc {
+							if !fromConcrete(v.X) && !fromConcrete(v.Y) && !knownNil(v.X, v) && !knownNil(v.Y, v) && !recoversPanic(v.Parent()) {
+								out = append(out, sink{ins, v.X, "ifacecmp", []string{"never"}, "== on two script-controlled interface values panics when both hold the same uncomparable type (a styled text is a slice)"})
+							}
+						}
+					}
 				}
 			case *ssa.TypeAssert:
 				// x.(T) with T the static type of x is go/ssa's nil check for a
@@ -440,6 +454,7 @@ func init() {
 			{Name: "nil-check-after-use", Rule: "NIL-ARG", File: "pkg/mods/flag/flag.go", Old: "\tif fn == nil {\n\t\treturn errs.BadValue{What: \"function to call\", Valid: \"function\", Actual: \"$nil\"}\n\t}\n\tif argsVal == nil {", New: "\tif len(fn.OptNames) > 64 {\n\t\treturn errs.BadValue{What: \"function to call\", Valid: \"function with at most 64 options\", Actual: \"more\"}\n\t}\n\tif fn == nil {\n\t\treturn errs.BadValue{What: \"function to call\", Valid: \"function\", Actual: \"$nil\"}\n\t}\n\tif argsVal == nil {", Fire: true, Want: "flag:call"},
 			{Name: "benign-nil-check-in-helper-order", Rule: "NIL-ARG", File: "pkg/eval/builtin_fn_time.go", Old: "func timeCmd(fm *Frame, opts timeOpt, f Callable) error {\n\tif f == nil {\n\t\treturn errs.BadValue{What: \"function\", Valid: \"function\", Actual: \"$nil\"}\n\t}\n", New: "func timeCmd(fm *Frame, opts timeOpt, f Callable) error {\n\tif f != nil {\n\t\treturn timeIt(fm, opts, f)\n\t}\n\treturn errs.BadValue{What: \"function\", Valid: \"function\", Actual: \"$nil\"}\n}\n\nfunc timeIt(fm *Frame, opts timeOpt, f Callable) error {\n", Fire: false},
 			{Name: "revert-fix-typed-var-nil", Rule: "PANIC-SINK", File: "pkg/eval/vars/ptr.go", Old: "\tif val == nil {\n\t\tt := reflect.TypeOf(v.ptr).Elem()\n\t\tif t.Kind() != reflect.Interface || t.NumMethod() > 0 {\n\t\t\treturn errCannotSetToNil\n\t\t}\n\t}\n", New: "", Fire: true, Want: "NewEvaler"},
+			{Name: "revert-fix-is-compares-interfaces", Rule: "PANIC-SINK", File: "pkg/eval/builtin_fn_pred.go", Old: "\t\tif !identical(args[i], args[i+1]) {", New: "\t\tif args[i] != args[i+1] {", Fire: true, Want: "eval.is"},
 			{Name: "collect-length-believed", Rule: "RESULT-INDEX", File: "pkg/eval/builtin_fn_container.go", Old: "\t\tif len(elems) != 2 {\n\t\t\terrMakeMap = fmt.Errorf(\"internal bug: collected %v values\", len(elems))\n\t\t\treturn\n\t\t}\n", New: "", Fire: true, Want: "makeMap"},
 			{Name: "revert-fix-negative-fd", Rule: "PANIC-SINK", File: "pkg/eval/compile_effect.go", Old: "if dst < 0 || dst > maxRedirFD {", New: "if dst > maxRedirFD {", Fire: true, Want: "growAccess", Quick: true},
 			{Name: "revert-fix-huge-fd", Rule: "PANIC-SINK", File: "pkg/eval/compile_effect.go", Old: "if dst < 0 || dst > maxRedirFD {", New: "if dst < 0 {", Fire: true, Want: "growAccess make"},
